@@ -10,6 +10,9 @@ import (
 type SubOp struct {
 	K   int  `json:"k"`
 	Del bool `json:"del,omitempty"`
+	// Again (local transactions of the convergence check only): the transaction touches this
+	// key a second time, e.g. delete then set; the last operation on a key is the one that counts.
+	Again bool `json:"again,omitempty"`
 }
 
 // Op is one scripted step of the cluster simulation.
@@ -97,7 +100,12 @@ func genOps(t *rapid.T, n, keys int, c13 bool) []Op {
 			if rapid.IntRange(0, 7).Draw(t, "txfail") == 0 {
 				kind = "txfail" // the leaseholder's storage engine refuses the commit
 			}
-			ops = append(ops, Op{Kind: kind, N: node("n"), Subs: genSubs(t, keys)})
+			subs := genSubs(t, keys)
+			if !c13 && kind == "tx" && rapid.IntRange(0, 3).Draw(t, "same-key-twice") == 0 {
+				first := subs[rapid.IntRange(0, len(subs)-1).Draw(t, "again-of")]
+				subs = append(subs, SubOp{K: first.K, Del: !first.Del && rapid.Bool().Draw(t, "again-del"), Again: true})
+			}
+			ops = append(ops, Op{Kind: kind, N: node("n"), Subs: subs})
 		case x < w[1]:
 			ops = append(ops, Op{Kind: "inject", N: node("n"), L: rapid.IntRange(0, 1).Draw(t, "l"),
 				Gap: rapid.SampledFrom([]int{1, 1, 1, 2, 5}).Draw(t, "gap"), Subs: genSubs(t, keys)})
